@@ -131,7 +131,11 @@ MSG_FAULTS = (
      ("val_arr_count_ffffffff_one", False, True, ALL3), ("val_arr_count_short", False, True, ALL3),
      ("val_arr_no_count", False, True, ALL3), ("val_nested_trunc", False, True, ALL3),
      ("val_bad_tag", False, True, EXSV), ("val_unsupported_tag", False, True, EXSV), ("val_empty", False, True, EXSV),
-     ("val_wrong_type", False, True, EXSV), ("val_wrong_type2", False, True, EXSV)])
+     ("val_wrong_type", False, True, EXSV), ("val_wrong_type2", False, True, EXSV)] +
+    # undecodable reply x reply size (the VM picks its receive buffer by size: stack, heap, mmap-sized heap)
+    [("val_badsized_%d" % n, False, True, EXSV) for n in (64, 8191, 8192, 8193, 20000, 131072, 1048576, 4000000)] +
+    # nesting depth of an (undecodable) array reply: the decoder recurses once per level
+    [("val_nest_%d" % n, False, True, EXSV) for n in (2, 100, 10000, 300000, 2000000)])
 
 
 def one_fault_cells(victim, reply_tags=None):
